@@ -179,10 +179,22 @@ class Interp:
                 h = H("payload", "%s::%s.%d" % (enum, variant, i), enum=enum, variant=variant, idx=i, ty=ty, of=val.get("src") if isinstance(val, dict) else None)
                 self.bind_pattern(e, h, st)
             return
+        if k == "struct":
+            # Point { x, y: py, .. }
+            for fl in p.get("fields", []):
+                nm = fl["name"]
+                if isinstance(val, dict) and val.get("v") == "struct" and nm in val["fields"]:
+                    fv = val["fields"][nm]
+                elif isinstance(val, dict) and val.get("v") == "tuple" and nm.isdigit() and int(nm) < len(val["xs"]):
+                    fv = val["xs"][int(nm)]
+                else:
+                    fv = H("proj", "%s.%s" % ((val.get("src") if isinstance(val, dict) else None) or "?", nm), of=val if isinstance(val, dict) else None, field=nm, ty=self._field_ty(val, nm) if isinstance(val, dict) else None)
+                self.bind_pattern(fl["pat"], fv, st)
+            return
         if k == "tuple":
             xs = val.get("xs") if isinstance(val, dict) and val.get("v") == "tuple" else None
             for i, e in enumerate(p["elems"]):
-                self.bind_pattern(e, xs[i] if xs and i < len(xs) else H("proj", "%s.%d" % (val.get("src", "?") if isinstance(val, dict) else "?", i)), st)
+                self.bind_pattern(e, xs[i] if xs and i < len(xs) else H("proj", "%s.%d" % (val.get("src", "?") if isinstance(val, dict) else "?", i), of=val if isinstance(val, dict) else None, field=str(i)), st)
             return
         if k == "or":
             # bind from the first case; every case must bind the same positions. The variants are recorded on the hole.
@@ -336,6 +348,9 @@ class Interp:
                 elif a.get("v") == "int" and b.get("v") == "int" and e["op"] in ("+", "-", "*"):
                     n = {"+": a["n"] + b["n"], "-": a["n"] - b["n"], "*": a["n"] * b["n"]}[e["op"]]
                     out.append((s2, {"v": "int", "n": n, "src": src(e)}))
+                elif e["op"] in ("|", "||") and a.get("kind") == "contains_any" and b.get("kind") == "contains_any" and canon(a["recv"]) == canon(b["recv"]):
+                    # s.contains(x) | s.contains(y)  ≡  s.contains([x, y])
+                    out.append((s2, H("contains_any", src(e), recv=a["recv"], chars="".join(sorted(set(a["chars"]) | set(b["chars"]))))))
                 else:
                     out.append((s2, H("expr", src(e), op=e["op"], operands=[a, b])))
         return out
@@ -556,6 +571,28 @@ class Interp:
                         a.conds = a.conds + ((canon(gv[0][1]) if len(gv) == 1 else src(arm["guard"]), True),)
                     out += self.ev(arm["body"], a)
                 continue
+            if isinstance(sv, dict) and sv.get("v") in ("some", "none"):
+                taken = False
+                for arm in e["arms"]:
+                    lab = self.pat_label(arm["pat"])
+                    ol = option_label(lab, set())
+                    hit = (ol == "Some" and sv["v"] == "some") or (ol == "None" and sv["v"] == "none") or (ol is None and len(lab) == 1 and lab[0] == "_")
+                    if not hit:
+                        continue
+                    a = s1.fork()
+                    self.bind_pattern(arm["pat"], sv, a)
+                    if arm["guard"] is not None:
+                        gv = self.ev(arm["guard"], a.fork())
+                        if len(gv) == 1 and gv[0][1].get("v") == "bool":
+                            if not gv[0][1]["b"]:
+                                continue
+                        else:
+                            a.conds = a.conds + ((canon(gv[0][1]) if len(gv) == 1 else src(arm["guard"]), True),)
+                    out += self.ev(arm["body"], a)
+                    taken = True
+                    break
+                if taken:
+                    continue
             is_opt = isinstance(sv, dict) and sv.get("v") == "hole" and any(self.pat_label(a_["pat"])[0] in ("None",) or str(self.pat_label(a_["pat"])[0]).startswith("Some(") for a_ in e["arms"] if len(self.pat_label(a_["pat"])) == 1)
             seen_opt = set()
             for arm in e["arms"]:
@@ -679,6 +716,155 @@ class Interp:
     def ev_index(self, e, st):
         return [(st, H("opaque", src(e)))]
 
+    def ev_paren(self, e, st):
+        return self.ev(e["e"], st)
+
+    def ev_array(self, e, st):
+        outs = [(st, [])]
+        for x in e["elems"]:
+            nxt = []
+            for s1, acc in outs:
+                for s2, v in self.ev(x, s1):
+                    nxt.append((s2, acc + [v]))
+            outs = nxt
+        return [(s1, {"v": "list", "items": xs}) for s1, xs in outs]
+
+    def ev_for(self, e, st):
+        """`for PAT in ITER { BODY }`.  A list whose elements are all known (array / vec literal, tuple of arguments) is
+        unrolled.  For a symbolic collection the body is run once on a symbolic element; what each path of the body
+        *appends* to strings, lists and local maps is recorded as the per-element contribution, exactly like
+        `iter().map(..)`; anything else a body does to the enclosing state cannot be summarised and is reported."""
+        out = []
+        for s1, it in self.ev(e["iter"], st):
+            if isinstance(it, dict) and it.get("v") == "fieldref":
+                it = self._field_value(it["field"], s1)
+            if isinstance(it, dict) and it.get("v") == "list" and not it.get("open") and not it.get("field"):
+                states = [s1]
+                for item in it["items"]:
+                    nxt = []
+                    for s2 in states:
+                        if s2.ret is not None:
+                            nxt.append(s2)
+                            continue
+                        a = s2.fork()
+                        self.bind_pattern(e["pat"], item, a)
+                        for s3, _ in self.ev(e["body"], a):
+                            nxt.append(s3)
+                    states = nxt
+                out += [(s2, {"v": "unit"}) for s2 in states]
+                continue
+            out += self._for_symbolic(e, s1, it)
+        return out
+
+    def _for_symbolic(self, e, st, coll):
+        elem = H("elem", "element of " + ((coll.get("src") if isinstance(coll, dict) else None) or "collection"), of=coll, ty=self._elem_ty(coll) if isinstance(coll, dict) else None)
+        if isinstance(coll, dict) and coll.get("v") == "hole" and coll.get("kind") == "payload":
+            elem = H("payload", (coll.get("src") or "") + "[]", enum=None, ty=self._elem_ty(coll), of=coll.get("src"), elem_of=coll)
+        if isinstance(coll, dict) and coll.get("v") == "self":
+            fn0 = st.env.get("__fn")
+            sty = norm_ty(fn0.impl["self_ty"]) if fn0 is not None and fn0.impl is not None else ""
+            m2 = re.match(r"Vec<(.*)>$", sty)
+            elem = H("payload", "self[]", enum=None, ty=m2.group(1) if m2 else None, of="self", elem_of=coll)
+        base = st.fork()
+        base.conds = ()
+        base.effects = []
+        body_start = base.fork()
+        self.bind_pattern(e["pat"], elem, body_start)
+        snap_env = {k: v for k, v in st.env.items()}
+        snap_buf = list(st.buf)
+        results = self.ev(e["body"], body_start)
+        # which accumulators changed, and by what, on each path of the body
+        deltas = {}  # name -> [(conds, appended value)]
+        problems = []
+        err_paths = []
+        for s2, _ in results:
+            if s2.ret is not None:
+                if isinstance(s2.ret, dict) and s2.ret.get("v") == "err":
+                    err_paths.append((s2.conds, s2.ret))
+                    continue
+                if isinstance(s2.ret, dict) and s2.ret.get("v") == "panic":
+                    err_paths.append((s2.conds, s2.ret))
+                    continue
+                problems.append("the loop body returns a value")
+                continue
+            for u in s2.unknown:
+                if u not in st.unknown:
+                    problems.append(u)
+            for (kind, name, val) in [x for x in s2.effects if x[0] in ("push", "assign", "insert")]:
+                problems.append("the loop body changes the manager state (%s %s)" % (kind, name))
+            for name, before in snap_env.items():
+                if name.startswith("__"):
+                    continue
+                after = s2.env.get(name)
+                if after is before or after == before:
+                    deltas.setdefault(name, []).append((s2.conds, None))
+                    continue
+                d = self._delta(before, after)
+                if d is None:
+                    problems.append("`%s` is changed by the loop body in a way that is not an append" % name)
+                else:
+                    deltas.setdefault(name, []).append((s2.conds, d))
+            if s2.buf[: len(snap_buf)] == snap_buf:
+                deltas.setdefault("__buf", []).append((s2.conds, S(s2.buf[len(snap_buf):]) if len(s2.buf) > len(snap_buf) else None))
+            else:
+                problems.append("the output buffer is rewritten by the loop body")
+        out_state = st
+        for pr in problems:
+            if pr not in out_state.unknown:
+                out_state.unknown.append("for-loop over a symbolic collection: " + pr)
+        for name, alts in deltas.items():
+            if all(d is None for _, d in alts):
+                continue
+            mapped = {"v": "mapped", "of": coll, "elems": [(cnd, d if d is not None else S([])) for cnd, d in alts], "how": "for", "src": src(e["iter"])}
+            if name == "__buf":
+                out_state.buf = out_state.buf + [("join", mapped, "")]
+                continue
+            before = snap_env[name]
+            kinds = {self._delta_kind(d) for _, d in alts if d is not None}
+            if kinds == {"str"} and is_str(before):
+                out_state.env[name] = S(before["parts"] + [("join", mapped, "")])
+            elif kinds == {"items"} and isinstance(before, dict) and before.get("v") == "list":
+                out_state.env[name] = {"v": "mapped", "of": coll, "elems": [(cnd, (d["items"][0] if d is not None and len(d["items"]) == 1 else {"v": "list", "items": d["items"] if d else []})) for cnd, d in alts], "how": "for", "src": src(e["iter"]), "prefix": before["items"]}
+            elif kinds == {"entries"}:
+                out_state.env[name] = {"v": "mapped", "of": coll, "elems": [(cnd, {"v": "tuple", "xs": list(d["entries"][0])} if d is not None and len(d["entries"]) == 1 else {"v": "unit"}) for cnd, d in alts], "how": "for-insert", "src": src(e["iter"]), "collected": "map"}
+            else:
+                out_state.unknown.append("for-loop over a symbolic collection: `%s` accumulates values of mixed kinds" % name)
+        res = [(out_state, {"v": "unit"})]
+        for cnd, rv in err_paths:
+            b = st.fork()
+            b.conds = b.conds + tuple(("∃" + str(c0[0]), c0[1]) for c0 in cnd)
+            b.ret = rv
+            res.append((b, {"v": "never"}))
+        return res
+
+    def _delta_kind(self, d):
+        if is_str(d):
+            return "str"
+        if isinstance(d, dict) and "items" in d:
+            return "items"
+        if isinstance(d, dict) and "entries" in d:
+            return "entries"
+        return "?"
+
+    def _delta(self, before, after):
+        """what was appended to `before` to obtain `after` (strings, lists, local maps), or None"""
+        if is_str(before) and is_str(after):
+            bp, ap = before["parts"], after["parts"]
+            if ap[: len(bp)] == bp:
+                return S(ap[len(bp):])
+            return None
+        if isinstance(before, dict) and isinstance(after, dict) and before.get("v") == "list" and after.get("v") == "list" and not before.get("field"):
+            bi, ai = before["items"], after["items"]
+            if ai[: len(bi)] == bi:
+                return {"items": ai[len(bi):]}
+            return None
+        if isinstance(before, dict) and isinstance(after, dict) and before.get("v") == "localmap" and after.get("v") == "localmap":
+            be, ae = before["entries"], after["entries"]
+            if ae[: len(be)] == be:
+                return {"entries": ae[len(be):]}
+            return None
+        return None
+
     def ev_call(self, e, st):
         f = e["f"]
         fname = "::".join(f["segs"]) if f["k"] == "path" else None
@@ -704,6 +890,20 @@ class Interp:
             if fname == "String::new" and not argv:
                 res.append((s1, S([])))
                 continue
+            if fname in ("String::with_capacity",) and len(argv) == 1:
+                res.append((s1, S([])))
+                continue
+            if fname in ("Vec::new", "Vec::with_capacity", "VecDeque::new") and len(argv) <= 1:
+                res.append((s1, {"v": "list", "items": []}))
+                continue
+            if fname in ("HashMap::new", "HashMap::with_capacity", "BTreeMap::new", "HashMap::default") and len(argv) <= 1 and not s1.env.get("__in_default"):
+                res.append((s1, {"v": "localmap", "entries": [], "ty": fname.split("::")[0]}))
+                continue
+            if fname and fname.endswith("::default") and not argv and len(f["segs"]) == 2:
+                dv = self.derived_default(f["segs"][0])
+                if dv is not None:
+                    res.append((s1, dv))
+                    continue
             # local closure / fn value
             callee = None
             if f["k"] == "path" and len(f["segs"]) == 1 and f["segs"][0] in s1.env:
@@ -724,6 +924,34 @@ class Interp:
             # enum constructor or unknown function: symbolic
             res.append((s1, H("call", src(e), callee=fname, args=argv)))
         return res
+
+    def derived_default(self, ty, depth=0):
+        """Value of `T::default()` for a crate struct that derives Default (no hand-written impl)."""
+        sd = self.f.structs.get(ty)
+        if sd is None or depth > 3 or "Default" not in self.f.derives(sd) or ("<%s as Default>::default" % ty) in self.f.fns:
+            return None
+        fields = {}
+        for fl in sd.get("fields", []):
+            t = norm_ty(fl["ty"])
+            nm = fl.get("name")
+            if t in ("u8", "u16", "u32", "u64", "usize", "i8", "i16", "i32", "i64", "isize", "u128", "i128"):
+                fields[nm] = {"v": "int", "n": 0, "src": "0"}
+            elif t == "bool":
+                fields[nm] = {"v": "bool", "b": False, "src": "false"}
+            elif t == "String":
+                fields[nm] = S([])
+            elif t.startswith("Vec<"):
+                fields[nm] = {"v": "list", "items": []}
+            elif t.startswith("Option<"):
+                fields[nm] = {"v": "none"}
+            elif t in self.f.structs:
+                sub = self.derived_default(t, depth + 1)
+                if sub is None:
+                    return None
+                fields[nm] = sub
+            else:
+                fields[nm] = H("call", "%s::default()" % t, callee="%s::default" % t.split("<")[0], args=[])
+        return {"v": "struct", "name": ty, "fields": fields, "src": "%s::default()" % ty, "ctor": "%s::default" % ty}
 
     def call_closure(self, clo, argv, st):
         node = clo["node"]
@@ -811,6 +1039,44 @@ class Interp:
         if isinstance(rv, dict) and rv.get("v") == "fieldref":
             rv = self._field_value(rv["field"], st)
         k = rv.get("v") if isinstance(rv, dict) else None
+        if m == "contains" and len(argv) == 1 and k in ("hole",):
+            a0 = argv[0]
+            chars = None
+            if isinstance(a0, dict) and a0.get("v") == "char":
+                chars = [a0["c"]]
+            elif isinstance(a0, dict) and a0.get("v") == "list" and a0["items"] and all(isinstance(x, dict) and x.get("v") == "char" for x in a0["items"]):
+                chars = [x["c"] for x in a0["items"]]
+            if chars is not None:
+                return [(st, H("contains_any", src(e), recv=rv, chars="".join(sorted(set(chars)))))]
+        if k == "localmap" and m == "insert" and len(argv) == 2:
+            tgt = self._local_name(e["recv"], st)
+            if tgt is not None:
+                st.env[tgt] = dict(rv, entries=rv["entries"] + [(argv[0], argv[1])])
+                return [(st, {"v": "none"})]
+        if k == "list" and not rv.get("field") and m == "push" and len(argv) == 1:
+            tgt = self._local_name(e["recv"], st)
+            if tgt is not None:
+                st.env[tgt] = dict(rv, items=rv["items"] + [argv[0]])
+                return [(st, {"v": "unit"})]
+        if k == "str" and m in ("push_str", "push") and len(argv) == 1:
+            tgt = self._local_name(e["recv"], st)
+            if tgt is not None:
+                v = argv[0]
+                add = v["parts"] if is_str(v) else ([C(v["c"])] if isinstance(v, dict) and v.get("v") == "char" else [("h", v)])
+                st.env[tgt] = S(rv["parts"] + add)
+                return [(st, {"v": "unit"})]
+        if k == "list" and not rv.get("field") and not rv.get("open") and m in ("concat",) and not argv and all(is_str(x) for x in rv["items"]):
+            parts = []
+            for x in rv["items"]:
+                parts += x["parts"]
+            return [(st, S(parts))]
+        if k == "list" and not rv.get("field") and not rv.get("open") and m == "join" and len(argv) == 1 and is_str(argv[0]) and all(is_str(x) for x in rv["items"]):
+            parts = []
+            for i_, x in enumerate(rv["items"]):
+                if i_:
+                    parts += argv[0]["parts"]
+                parts += x["parts"]
+            return [(st, S(parts))]
         if k == "selfsub":
             key = "%s::%s" % (rv["ty"], m)
             if key in self.f.fns:
@@ -838,7 +1104,7 @@ class Interp:
             if m == "to_string" and k in ("hole", "affine", "char"):
                 return [(st, S([("h", rv)]))]
             return [(st, rv)]
-        if k in ("ok", "err", "some", "none") or (k == "hole" and m in ("and_then", "map") and argv and argv[0].get("v") in ("closure", "fn") and self._optionish(rv)):
+        if k in ("ok", "err", "some", "none") or (k == "hole" and m in ("and_then", "map") and argv and argv[0].get("v") in ("closure", "fn") and self._optionish(rv)) or (k == "hole" and m in ("map_or", "map_or_else") and len(argv) == 2 and self._optionish(rv)):
             r = self.optres(e, m, rv, argv, st)
             if r is not None:
                 return r
@@ -959,6 +1225,13 @@ class Interp:
         # symbolic method call
         return [(st, H("mcall", src(e), method=m, recv=rv, args=argv, ty=self._mret(rv, m)))]
 
+    def _local_name(self, recv, st):
+        """name of the local variable a method receiver denotes (through & and *), if it is one"""
+        r = rx.peel(recv)
+        if r.get("k") == "path" and len(r["segs"]) == 1 and r["segs"][0] in st.env and not r["segs"][0].startswith("__"):
+            return r["segs"][0]
+        return None
+
     def _optionish(self, rv):
         ty = rv.get("ty") or ""
         if ty.startswith("Option<"):
@@ -1035,6 +1308,24 @@ class Interp:
                 return [(st, {"v": "bool", "b": False, "src": src(e)})]
             if m in ("is_none",):
                 return [(st, {"v": "bool", "b": True, "src": src(e)})]
+        if m in ("map_or", "map_or_else") and len(argv) == 2:
+            dflt, fn_ = argv
+            def default_value(s0):
+                if m == "map_or":
+                    return [(s0, dflt)]
+                return apply(dflt, {"v": "unit"}, s0) if dflt.get("v") == "closure" else (self.call_fn(dflt["key"], [], s0, e) if dflt.get("v") == "fn" else [(s0, H("call", src(e), args=[]))])
+            if k == "some":
+                return apply(fn_, rv["x"], st)
+            if k == "none":
+                return default_value(st)
+            if k == "hole":
+                a = st.fork()
+                a.conds = a.conds + ((canon(rv), "Some"),)
+                res = list(apply(fn_, some_of(rv), a))
+                b = st.fork()
+                b.conds = b.conds + ((canon(rv), "None"),)
+                res += default_value(b)
+                return res
         if k == "hole" and m in ("and_then", "map") and argv:
             a = st.fork()
             a.conds = a.conds + ((canon(rv), "Some"),)
@@ -1411,6 +1702,11 @@ def canon(h):
     if v == "affine":
         return "v%+d" % h["off"] if h["off"] else "v"
     if v == "str":
+        fp = flat_parts(h["parts"])
+        if len(fp) == 1 and fp[0][0] == "h" and isinstance(fp[0][1], dict) and not fp[0][1].get("spec") and fp[0][1].get("v") == "hole":
+            # `x.to_string()` / `format!("{x}")` of a single value is that value (a &str parameter and its owned copy are
+            # the same text)
+            return canon(fp[0][1])
         return '"' + canon_parts(h["parts"]) + '"'
     if v == "some":
         return "Some(%s)" % canon(h["x"])
@@ -1424,6 +1720,10 @@ def canon(h):
         return "self"
     if v == "mapped":
         return "map(%s)" % canon(h.get("of"))
+    if v == "list":
+        return "[%s]" % ",".join(canon(x) for x in h.get("items", []))
+    if v == "localmap":
+        return "{%s}" % ",".join("%s:%s" % (canon(a), canon(b)) for a, b in h.get("entries", []))
     if v == "fn":
         return h["key"]
     if v != "hole":
@@ -1447,6 +1747,8 @@ def canon(h):
         return "%s.%s%s" % (canon(h.get("of")), h.get("field"), spec)
     if k == "field":
         return "self.%s%s" % (FIELD_ALIAS.get(h.get("field"), h.get("field")), spec)
+    if k == "contains_any":
+        return "%s.contains_any(%r)%s" % (canon(h.get("recv")), h.get("chars"), spec)
     if k == "cast":
         return "(%s as %s)%s" % (canon(h["operands"][0]), h.get("to"), spec)
     if k == "expr":
@@ -1612,6 +1914,8 @@ def tainted(h, depth=0):
             return [canon(h)]
         if k == "param" and ("AsRef<str>" in ty or ty in ("S", "&S")):
             return [canon(h)]
+        return []
+    if k == "contains_any":
         return []
     if k == "cast" and norm_ty(h.get("to") or ty) in ("u8", "u16", "u32", "u64", "u128", "usize", "i8", "i16", "i32", "i64", "i128", "isize"):
         # an integer is rendered with digits (or hex digits) only: whatever it was computed from, its text is not user text
